@@ -76,7 +76,7 @@ V_DBL = [0.5, 1e308, 3e10, 2.5, 0.1, 0.0, -0.5, 1.5, -1.5, 1.0, -1.0, 2.0, 32767
          32767.49, 2147483648.0, 2147483647.5, 2147483647.0, -2147483648.5, -2147483649.0,
          9223372036854775808.0, 9223372036854774784.0, -9223372036854775808.0,
          18446744073709551616.0, 1e38, 3.4e38, 3.5e38, 1.7976931348623157e308, 5e-324, 1e-320,
-         3.5, -3.5, 4294967296.0, 65536.0, -0.0]
+         3.5, -3.5, 4294967296.0, 65536.0, -0.0, float('inf'), float('-inf'), float('nan')]
 V_STR = ['a', '12', '', 'b', 'ab', '1', ' 7 ', '1.5', '1e5', 'A', 'aa']
 QN = {1: 4, 2: 4, 3: 3, 4: 3, 5: 2}
 
@@ -749,7 +749,7 @@ def run(ctx, tier):
     ctx.sample({'suite': 'fold_fn', 'expr': describe(mid)})
     ctx.sample({'suite': 'fold_fn', 'expr': describe(nested[len(nested) // 2])})
     # programs
-    n1, n2 = 40, 30
+    n1, n2 = (20, 15) if tier == 'quick' else (40, 30)
     ctx.rule.append(
         f'fold_levels: {n1} per mille of the one-level and {n2} per mille of the two-level source-expressible '
         f'expressions above (selected by a seeded hash of the expression, so quick is a subset of thorough), '
